@@ -214,6 +214,42 @@ def frame_counterexample(prog, f, value, param):
     return None
 
 
+def frame_method_counterexample(prog, f, param, attr):
+    """the whole storing method interpreted exactly for each battery frame: what it leaves in self.<attr> must select the same
+    columns as the frame given (None -> everything); a frame for which it does not is a concrete failing input"""
+    from .. import symtensor, ratfun
+    np = symtensor.np
+    if np is None:
+        return None
+    probe = np.arange(30).reshape(3, 10)
+    for fr in FRAME_BATTERY + [None]:
+        te = symtensor.TensorEval(prog, f.cls, {})
+        te.numeric = True
+        te.strict_if = True
+        te.PYTYPES = dict(te.PYTYPES)
+
+        def hook(e, fn_, env, ev):
+            # isinstance against the tuple of index types the trace reader supports: every battery frame is of a supported type
+            if isinstance(e.func, ast.Name) and e.func.id == 'isinstance' and len(e.args) == 2 and 'SUPPORTED_INDICES_TYPES' in norm(e.args[1]):
+                return True
+            return NotImplemented
+        te.call_hook = hook
+        try:
+            te.run(f, {param: fr})
+            got = te.last_env.get(f'self.{attr}', 'MISSING')
+            if isinstance(got, str) and got == 'MISSING':
+                return None
+            want = probe[:, fr] if fr is not None else probe[:, ...]
+            sel = probe[:, got]
+        except (ratfun.Unknown, symtensor.Raised):
+            return None
+        except (IndexError, TypeError, ValueError):
+            continue
+        if np.shape(sel) != np.shape(want) or not np.array_equal(sel, want):
+            return fr, np.asarray(sel)[0].tolist() if np.ndim(sel) else int(sel[()]), np.asarray(want)[0].tolist() if np.ndim(want) else want
+    return None
+
+
 def d3(ctx, prog, s):
     stmts = [st for st in s.node.body if not (isinstance(st, ast.Expr) and isinstance(st.value, ast.Constant))]
     key = f'{s.key}::frame then preprocesses'
@@ -243,10 +279,12 @@ def d3(ctx, prog, s):
     reb = [n for n in ast.walk(sf.node) if isinstance(n, ast.Assign) and isinstance(n.targets[0], ast.Name) and n.targets[0].id == fp]
     kinds_ = [astutil.passthrough_kind(n.value, fp) for n in st + reb]
     cex = None
-    if len(st) == 1 and 'unknown' in kinds_:
+    if 'unknown' in kinds_ or len(st) != 1:
+        cex = frame_method_counterexample(prog, sf, fp, 'frame')
+    if cex is None and len(st) == 1 and 'unknown' in kinds_:
         cex = frame_counterexample(prog, sf, (st + reb)[kinds_.index('unknown')].value, fp)
     if cex is not None:
-        ctx.fail('C02-D3', f'{sf.key}::stores frame', f'the frame {cex[0]!r} given to the Container is stored as `{norm((st + reb)[kinds_.index("unknown")].value)[:60]}`, which selects the sample columns {cex[1]} '
+        ctx.fail('C02-D3', f'{sf.key}::stores frame', f'the frame {cex[0]!r} given to the Container is stored as `{norm((st + reb)[kinds_.index("unknown")].value)[:60] if "unknown" in kinds_ else "?"}`, which selects the sample columns {cex[1]} '
                  f'instead of {cex[2]}: index lists must be applied as given (order and repetitions included)', sf.where())
     elif len(st) != 1 or 'unknown' in kinds_:
         ctx.undecided('C02-D3', f'{sf.key}::stores frame', f'how the frame is stored (`{norm((st + reb)[kinds_.index("unknown")].value)[:60] if "unknown" in kinds_ else "?"}`) is not understood', sf.where())
